@@ -421,6 +421,17 @@ def nontrivial(doc) -> bool:
     return nested_filter or bool(f & {"v_list", "v_pair", "v_zone", "node_section", "dup_or_repeated_key"})
 
 
+def crlf_in_zone(text: str):
+    """The text with a CR appended to the first content line of its first non-empty literal zone (None if there is none)."""
+    lines = text.split("\n")
+    idx = [i for i, ln in enumerate(lines) if re.fullmatch(r" *`{3,}[^`]*", ln)]
+    for a, b in zip(idx[0::2], idx[1::2]):
+        if b - a >= 2 and "\r" not in lines[a + 1]:
+            lines[a + 1] += "\r"
+            return "\n".join(lines)
+    return None
+
+
 def shard(ctx: Ctx, sh: int, nshards: int, n: int) -> Stats:
     st = Stats()
     avoid = AVOID_KNOWN if sh % 8 == 7 else AVOID_CLEAN
@@ -435,6 +446,14 @@ def shard(ctx: Ctx, sh: int, nshards: int, n: int) -> Stats:
                     key=text, n=16)
             for sig, det in fails:
                 st.fail(sig, {"doc": doc}, det)
+            # the same text with CR LF inside a literal zone (a captured HTTP request, a .bat file): content route only — the
+            # view must carry the zone as the reader of the source reads it
+            tcr = crlf_in_zone(text)
+            if tcr is not None and counter[0] % 3 == 0:
+                fails2, _ = evaluate(doc, tcr, False, root)
+                st.case({"text": tcr}, nontrivial=True, labels=["crlf_inside_zone"], key=tcr, n=16)
+                for sig, det in fails2:
+                    st.fail(sig.replace("C14:unlisted:", "C14:unlisted:crlf-zone:"), {"doc": doc, "crlf_zone": True}, det)
 
         drive(model.document(depth=3, zones=True, comments=True, max_nodes=5, meta_zones=True, avoid=avoid), one, ctx.shard_seed(sh, 71), n)
     return st
@@ -443,7 +462,12 @@ def shard(ctx: Ctx, sh: int, nshards: int, n: int) -> Stats:
 def check_case(case) -> list[Failure]:
     text, _ = docprop.render_case(case["doc"], {"k": "canon"})
     with scratch_dir() as root:
-        fails, _ = evaluate(case["doc"], text, True, root)
+        if case.get("crlf_zone"):
+            tcr = crlf_in_zone(text)
+            fails, _ = evaluate(case["doc"], tcr, False, root) if tcr else ([], False)
+            fails = [(sg.replace("C14:unlisted:", "C14:unlisted:crlf-zone:"), d) for sg, d in fails]
+        else:
+            fails, _ = evaluate(case["doc"], text, True, root)
     return [Failure(s, case, d) for s, d in fails]
 
 
